@@ -54,6 +54,9 @@ func (p *Path) base() *Term {
 	p.addInput("base#0", "u64", b)
 	p.assume(p.ctx.Cmp(OpUlt, b, p.ctx.Const(64, 1<<62)))
 	p.ghost["__base"] = b
+	if !b.IsConst() {
+		p.ctx.Base = b
+	}
 	return b
 }
 
@@ -183,6 +186,18 @@ func init() {
 	reg(v("vB2U"), func(p *Path, _ *frame, _ *ssa.Function, args []Value) Value {
 		return p.ctx.BoolToBV(args[0].(*Term), 64)
 	})
+	reg(v("vBaseAlign12"), func(p *Path, _ *frame, _ *ssa.Function, args []Value) Value {
+		b := p.base()
+		if b.IsConst() {
+			return nil
+		}
+		c := p.ctx
+		q := p.freshVar("base.q", 64)
+		p.assume(c.Cmp(OpUlt, q, c.Const(64, 1<<58)))
+		p.assume(c.Eq(b, c.Bin(OpMul, q, c.Const(64, 12))))
+		c.BaseAlign = 12
+		return nil
+	})
 	reg(v("vBase"), func(p *Path, _ *frame, _ *ssa.Function, args []Value) Value { return p.base() })
 	reg(v("vWinNew"), func(p *Path, _ *frame, _ *ssa.Function, args []Value) Value {
 		name := p.argStr(args[0])
@@ -239,6 +254,66 @@ func init() {
 			in = p.ctx.Or(in, p.ctx.Eq(i, p.ctx.Bin(OpAdd, p.base(), p.ctx.Const(64, uint64(k)))))
 		}
 		return in
+	})
+	reg("(*"+raftPkg+".vWin64).Clone", func(p *Path, _ *frame, _ *ssa.Function, args []Value) Value {
+		o := args[0].(*nativeObj)
+		n := &nativeObj{kind: "win", name: o.name + "'", w: o.w, def: o.def}
+		n.cells = append(n.cells, o.cells...)
+		return n
+	})
+	// blob <-> 64-bit cell: low 32 bits content id, bit 32 nil flag
+	reg(v("vBlobFromCell"), func(p *Path, _ *frame, _ *ssa.Function, args []Value) Value {
+		c := p.ctx
+		x := args[0].(*Term)
+		id := c.Extract(x, 31, 0)
+		nilv := c.And(c.Eq(c.Extract(x, 32, 32), c.Const(1, 1)), c.Eq(id, c.Const(32, 0)))
+		if !id.IsConst() {
+			l := c.UF("slen", 32, id)
+			z := c.Const(32, 0)
+			p.assume(c.Eq(c.Eq(l, z), c.Eq(id, z)))
+			p.assume(c.Cmp(OpUlt, l, c.Const(32, 1<<20)))
+		}
+		return &Blob{Nil: nilv, ID: id}
+	})
+	reg(v("vBlobToCell"), func(p *Path, _ *frame, _ *ssa.Function, args []Value) Value {
+		c := p.ctx
+		b := args[0].(*Blob)
+		return c.Bin(OpBOr, c.ZExt(b.ID, 64), c.Bin(OpShl, c.BoolToBV(b.Nil, 64), c.Const(64, 32)))
+	})
+	reg(v("vStrFromCell"), func(p *Path, _ *frame, _ *ssa.Function, args []Value) Value {
+		c := p.ctx
+		id := c.Extract(args[0].(*Term), 31, 0)
+		if !id.IsConst() {
+			l := c.UF("slen", 32, id)
+			z := c.Const(32, 0)
+			p.assume(c.Eq(c.Eq(l, z), c.Eq(id, z)))
+			p.assume(c.Cmp(OpUlt, l, c.Const(32, 1<<20)))
+		}
+		return StrV{id}
+	})
+	reg(v("vStrToCell"), func(p *Path, _ *frame, _ *ssa.Function, args []Value) Value {
+		return p.ctx.ZExt(args[0].(StrV).ID, 64)
+	})
+	// abstract bijection for encoded configurations (msgpack itself is never executed)
+	encCfg := func(p *Path, _ *frame, _ *ssa.Function, args []Value) Value {
+		s := p.freshStr("cfgenc")
+		p.assume(p.ctx.Not(p.ctx.Eq(s.ID, p.ctx.Const(32, 0))))
+		p.payload[s.ID] = deepCopy(args[0])
+		return &Blob{Nil: p.ctx.False, ID: s.ID}
+	}
+	reg(raftPkg+".EncodeConfiguration", encCfg)
+	reg(v("vEncodeConfiguration"), encCfg)
+	reg(raftPkg+".DecodeConfiguration", func(p *Path, _ *frame, _ *ssa.Function, args []Value) Value {
+		b := args[0].(*Blob)
+		leaf := p.resolveIte(b.ID)
+		if v, ok := p.payload[leaf]; ok {
+			return deepCopy(v)
+		}
+		if h, ok := p.ghost["__malformed"]; ok && h.(*Term) == leaf {
+			panic(goPanic{p.mkRuntimeError("failed to decode configuration (malformed)")})
+		}
+		p.unsupported("DecodeConfiguration of a blob without registered payload: %s", leaf)
+		return nil
 	})
 	reg(v("vRunUntilBlocked"), func(p *Path, caller *frame, _ *ssa.Function, args []Value) Value {
 		f := args[0]
@@ -316,6 +391,46 @@ func init() {
 	} {
 		reg(n, noop)
 	}
+}
+
+// resolveIte forks until the term is not an if-then-else.
+func (p *Path) resolveIte(t *Term) *Term {
+	for t.Op == OpIte {
+		if p.branch(t.Args[0], "resolve-ite") {
+			t = t.Args[1]
+		} else {
+			t = t.Args[2]
+		}
+	}
+	return t
+}
+
+// deepCopy copies slices as well (used for payloads).
+func deepCopy(v Value) Value {
+	switch x := v.(type) {
+	case Struct:
+		n := make(Struct, len(x))
+		for i, f := range x {
+			n[i] = deepCopy(f)
+		}
+		return n
+	case Array:
+		n := make(Array, len(x))
+		for i, f := range x {
+			n[i] = deepCopy(f)
+		}
+		return n
+	case SliceV:
+		if x == nil {
+			return x
+		}
+		n := make(SliceV, len(x))
+		for i, f := range x {
+			n[i] = deepCopy(f)
+		}
+		return n
+	}
+	return v
 }
 
 // resultFor returns zero results for a call-common.
